@@ -36,10 +36,42 @@ def long_sessions(rng, tier):
     return out
 
 
+def client_bursts(rng, tier):
+    """several client events / triggers of one type written in ONE client frame, some of them naming an entity the client has no
+    mapping for (hidden from it, not replicated, or not yet delivered): those are not sent, the others arrive exactly once, in
+    order, with the server's identifiers"""
+    out = []
+    for i in range(30 if tier == "quick" else 1200):
+        pol = rng.choice(["black", "black", "all"])
+        lines = ["cfg policy=%s auth=none track=0 nclients=2 timeout=10000" % pol, "start", "sframe 0 10", "connect 0 1200", "connect 1 1200"]
+        lines += ["sop spawn 1 1 0=1", "sop spawn 2 1 0=2", "sop spawn 3 0 0=3"]            # 3 is never replicated
+        if pol == "black":
+            lines.append("sop vis 0 2 0")                                                     # 2 is hidden from client 0
+        lines.append("sframe 1 16")
+        for c in (0, 1):
+            lines += ["deliver %d s2c 0 all" % c, "cframe %d" % c, "deliver %d c2s 0 all" % c]
+        lines += ["sop spawn 4 1 0=4", "sframe 1 16"]                                         # 4 exists, its update is still in flight
+        seq = 0
+        for _ in range(rng.randrange(1, 4)):
+            c = rng.choice([0, 0, 1])
+            ty = rng.choice(["CEM", "CEM", "CT"])
+            for _ in range(rng.randrange(2, 6)):
+                seq += 1
+                lines.append("cop %d ev %s %d r%d" % (c, ty, seq, rng.choice([1, 1, 2, 3, 4])))
+            lines.append("cframe %d" % c)
+            if rng.random() < 0.5:
+                lines += ["deliver %d c2s %d all" % (c, gen_scripts.C2S_EVENT_CH[ty]), "sframe 1 16"]
+        meta = dict(connected=[0, 1], events=True)
+        sf = len(lines)
+        lines += gen_scripts.settle_lines(meta)
+        out.append(("client-burst-%d" % i, lines, sf))
+    return out
+
+
 def run(tier, seed, replay):
     kws = [dict(events=True, weights=dict(sev=4.0, cev=3.0, edeliver=6.0)), dict(events=True, nclients=3, sessions=True), dict(events=True, auth="custom", nclients=2), dict(events=True, nclients=3, weights=dict(session=0.6)),
            dict(events=True, nclients=2, sessions=True, quick_reconnect=0.6, weights=dict(session=0.9, sev=4.0, edeliver=5.0))]
-    return sim_check("C05", tier, seed, kws, n_quick=240, n_thorough=24000, oracle_props={"C05"}, custom_scripts=long_sessions,
+    return sim_check("C05", tier, seed, kws, n_quick=240, n_thorough=24000, oracle_props={"C05"}, custom_scripts=lambda rng, tier: long_sessions(rng, tier) + client_bursts(rng, tier),
                      rule_extra=", long-lived quiet connections next to fresh ones (update ticks of different encoding widths), events of five server types and three client types in both directions, all send modes, clients connecting, authorizing and disconnecting at arbitrary points",
                      extra_assumptions=["intended recipients of a dependent event are the connections that exist when it is written and are authorized when the tick flushes it (unauthorized connections only get independent events, C07)",
                                         "a reconnect happens after at least one client frame (C09's premise); otherwise the event queue of the old session survives (C05_quick_reconnect_receives_old_event)",
